@@ -67,3 +67,36 @@ PROPS["C12"] = dict(
     assumptions=["float64 exact on D (also after translation/scaling: the harness keeps |k| <= 2^23)"],
     partial=["reflection/re-encoding invariance of ring-level contains/intersects is explored (metamorphic), not proved"],
 )
+
+PROPS["C04"] = dict(
+    streams=["C04"], kernel_cases=120, timeout=1500,
+    rule="series of 0-200 points (thorough: up to 70,000 so that 2- and 4-byte item widths, multi-level R-tree nodes and depth-16 overflow buckets occur) in clustered / collinear / all-identical / zero-extent / random layouts, open and closed, index kinds none, R-tree, quadtree (MinPoints 1); (i) Series.Index() bytes compared byte for byte with the model's bytes; (ii) Search with random and boundary query rectangles (on quadtree mid-lines, +-Inf bounds) and a callback that stops at the k-th call: number of callbacks, sorted reported indices and callback order compared with the model, reported set compared with the brute-force specification; (iii) the same after Move. non-trivial = at least one segment; distinct = distinct case lines",
+    trusted_base=COMMON_TB + ["float64 byte layout of the R-tree node boxes: IndexExec.f64_bits (normal finite values k*2^-s) — exercised byte-for-byte by the correspondence, not proved equal to IEEE-754",
+                              "quadtree mid-lines: the executable instance halves exactly on a grid pre-scaled by 2^16 (16 levels); the theorems hold for an arbitrary mid function"],
+    assumptions=["encoded index smaller than 2^32 bytes (the u32 address fields wrap beyond it; same limit in the Go code)", "R-tree height <= 255 (stored in one byte)"],
+    partial=["predicates that consume the edge index of a point lying on a shared vertex (ring.go:127-185) may depend on search order: index independence there rests on the correspondence over the three index kinds (C01/C02/C03 streams), not on a theorem"],
+)
+
+OBJ_TB = COMMON_TB + ["object trees are built through the public constructors (NewPoint ... NewFeatureCollection) from an integer encoding; the child-index threshold is set through the verif hook VerifSetChildIndex (re-runs parseInitRectIndex)",
+                      "github.com/tidwall/rtree (child index) is outside the model: the model's Search is the linear scan, the correspondence runs thresholds 0/1/2/64"]
+PROPS["C09"] = dict(
+    streams=["C09"], kernel_cases=150, timeout=1500, classify=classes.classify_c09,
+    rule="random object trees (depth <= 2; 11 kinds: Point, SimplePoint, Rect, LineString, Polygon, Feature, 5 collection kinds, with 0-4 or 60-70 children, empty children) whose leaves are constructed in contact with a common valid polygon; all ordered pairs; 4 geometry-index x 4 child-index configurations; per pair: 6 predicate answers + 8 algebraic-law flags (within=contains swapped, intersects symmetric, contains=>intersects, contains=>rect covers, intersects=>rects meet, self containment, Feature transparency, SimplePoint/Rect representation transparency) compared with the Coq model; answers compared with the composed point-set oracle when no polygon leaf is in boundary contact (where the C03 findings live). non-trivial: all; distinct = distinct case lines",
+    trusted_base=OBJ_TB + ["executable oracle PairSpec.meets_x / covers_x at the leaves (completeness not proved)"],
+    assumptions=["float64 exact on D", "Circle is outside this model (real-valued model, C13)"],
+    partial=["contains => rect covers is proved for every receiver except LineString-receiver containment of lines/rects/polygons (covers walk); rect-as-polygon transparency leans on the unproved completeness of C02/C03 for polygon pairs: both explored by correspondence"],
+)
+PROPS["C10"] = dict(
+    streams=["C10"], kernel_cases=150, timeout=1500, classify=classes.classify_c09,
+    rule="random collections of the five kinds (0-4 or 60-70 children, nested collections, empty and duplicate children, features) against probe objects of all kinds, query rectangles and early-stop counts; per case: 5 answers, 7 composition-law flags computed from the children's OWN implementation answers (intersects = some child x some part, contains = every part in some child, within = every child within, empty, rect = union, point count = sum, children order), child Search results, and a flag that thresholds 0, 1, 2, 64 of the child index give identical outputs. non-trivial: all; distinct = distinct case lines",
+    trusted_base=OBJ_TB,
+    assumptions=["float64 exact on D"],
+    partial=[],
+)
+PROPS["C11"] = dict(
+    streams=["C11"], kernel_cases=300, timeout=1500,
+    rule="random object trees of 11 kinds with coordinates on, just inside and just outside the +-180/+-90 limits and small lattice coordinates, 0-6 positions per line, rings with 0-8 positions closed or not, empties mixed with non-empties, single-child collections; outputs Empty, Valid, Rect, 2*Center, NumPoints compared with the model and with the direct specification (tight box over all occupied positions, every position in range). non-trivial: all; distinct = distinct case lines",
+    trusted_base=OBJ_TB,
+    assumptions=["coordinates are grid values k*2^-s: negative zero and non-dyadic floats are not generated (min/max/compare are exact on any finite float; only (min+max)/2 rounds)"],
+    partial=[],
+)
